@@ -42,6 +42,11 @@ def hx(s):
     return b.hex() if b else "-"
 
 
+def norm(name):
+    """Sass identifiers: `_` and `-` are the same character in variable, function and mixin names."""
+    return name.replace("_", "-")
+
+
 def _opt(x, f):
     return ["0"] if x is None else ["1"] + f(x)
 
@@ -58,7 +63,7 @@ def expr_tokens(e):
     if k == "null":
         return ["Z"]
     if k == "var":
-        return ["V", e[1]]
+        return ["V", norm(e[1])]
     if k == "bin":
         return ["B", e[1]] + expr_tokens(e[2]) + expr_tokens(e[3])
     if k == "neg":
@@ -120,7 +125,7 @@ def stmt_tokens(s):
     if k == "rule":
         return ["RULE", hx(s[1])] + block_tokens(s[2])
     if k == "var":
-        return ["VAR", s[1]] + expr_tokens(s[2]) + ["1" if s[3] else "0", "1" if s[4] else "0"]
+        return ["VAR", norm(s[1])] + expr_tokens(s[2]) + ["1" if s[3] else "0", "1" if s[4] else "0"]
     if k == "ifs":
         out = ["IFS", str(len(s[1]))]
         for c, b in s[1]:
@@ -915,6 +920,18 @@ def has_user_call(e):
     return any(has_user_call(x) for x in e if isinstance(x, tuple))
 
 
+def respell(t, rng):
+    """Spell `$a-b` / `$c_d` with either separator at each occurrence (they are the same name)."""
+    if isinstance(t, tuple):
+        if t and t[0] == "var" and len(t) in (2, 5) and isinstance(t[1], str) and ("-" in t[1] or "_" in t[1]):
+            n = t[1].replace("_", "-")
+            if rng.random() < 0.5:
+                n = n.replace("-", "_")
+            return (t[0], n) + tuple(respell(x, rng) for x in t[2:])
+        return tuple(respell(x, rng) for x in t)
+    return t
+
+
 def gen_program(rng, cfg):
     g = Gen(rng, cfg)
     root = Scope(None, "root")
@@ -943,7 +960,7 @@ def gen_program(rng, cfg):
     # make the final state observable
     for name, ty in list(root.vars.items())[:4]:
         body.append(("debug", ("var", name)))
-    return tuple(body), sorted(g.features)
+    return respell(tuple(body), rng), sorted(g.features)
 
 
 # ---------------------------------------------------------------------------------------------
